@@ -527,13 +527,29 @@ class HistoryRun:
         """harness view: deadlines of the unanswered blocking pops of live clients"""
         return [w.t_send + w.timeout for ci, ws in enumerate(self.waits) for w in ws if w.timeout and not w.late and not self.closed[ci]]
 
+    def overdue(self):
+        """harness view: (client, wait) whose deadline passed MARGIN_MS ago, unanswered and not yet reported"""
+        t = self.now()
+        return [(ci, ws[0]) for ci, ws in enumerate(self.waits)
+                if ws and not self.closed[ci] and ws[0].timeout and not ws[0].late and ws[0].t_send + ws[0].timeout + MARGIN_MS <= t]
+
     def tick(self, step, forced=False):
-        """wait until every deadline that is due has passed by MARGIN_MS, then run the deadline scan in the model"""
+        """wait until the deadlines that are due have passed by MARGIN_MS, then run the deadline scan in the model;
+        a forced tick goes to the next deadline, or — when only overdue unanswered waits are left — to the moment
+        their lateness bound runs out"""
         self.refresh_model()
         ds = sorted(set(self.m["deadlines"]) | set(self.wait_deadlines()))
         if not ds:
             return True
-        target = (ds[0] if forced else max(self.due(GUARD_MS))) + MARGIN_MS
+        now = self.now()
+        if forced:
+            future = [d for d in ds if d + MARGIN_MS > now]
+            if future:
+                target = future[0] + MARGIN_MS
+            else:
+                target = min([w.t_send + w.timeout + LATE_MS for _, w in self.overdue()] + [now + LATE_MS])
+        else:
+            target = max(self.due(GUARD_MS)) + MARGIN_MS
         while True:
             near = [d for d in ds if target - MARGIN_MS < d <= target + MARGIN_MS]
             if not near:
@@ -546,6 +562,10 @@ class HistoryRun:
         self.served_now = []
         self.pre = {}
         expect = self.model_event("timeouts %d" % t, step)
+        nxt = min([d for d in self.refresh_model()["deadlines"] if d > t] + [10 ** 9])     # no read may run into the next deadline
+
+        def budget(until):
+            return max(min(until, nxt - GUARD_MS) - self.now(), 1) / 1000.0
         # a nil may be up to LATE_MS late: wait for the expected ones before comparing
         for cid, toks in expect.items():
             ci = self.ids.index(cid)
@@ -553,26 +573,24 @@ class HistoryRun:
                 continue
             got = []
             for w in toks:
-                x = self.flat[ci].read(LATE_MS / 1000.0, header=w.startswith("h"))
+                x = self.flat[ci].read(budget(t + LATE_MS), header=w.startswith("h"))
                 if x is None:
                     break
                 got.append(x)
             self.note_tokens(ci, got, self.now(), step)
             self.pre[cid] = got
-        # harness view, model-free: the oldest wait of a client whose deadline has passed must be answered within LATE_MS
-        for ci, ws in enumerate(self.waits):
-            if self.closed[ci] or not ws:
+        # harness view, model-free: a wait whose deadline has passed must be answered within LATE_MS
+        for ci, w in self.overdue():
+            if self.pre.get(self.ids[ci]):
                 continue
-            w = ws[0]
-            if w.timeout and not w.late and w.t_send + w.timeout <= t - MARGIN_MS:
-                left = (w.t_send + w.timeout + LATE_MS - self.now()) / 1000.0
-                x = self.flat[ci].read(max(left, 0.001))
-                if x is None:
-                    w.late = True
-                    self.fail("late-nil", "client %d: BLPOP sent at %d ms with timeout %d ms has no answer at %d ms" % (ci, w.t_send, w.timeout, self.now()), step, (ci, w.seq))
-                else:
-                    self.note_tokens(ci, [x], self.now(), step)
-                    self.pre.setdefault(self.ids[ci], []).append(x)
+            limit = w.t_send + w.timeout + LATE_MS
+            x = self.flat[ci].read(budget(limit))
+            if x is not None:
+                self.note_tokens(ci, [x], self.now(), step)
+                self.pre.setdefault(self.ids[ci], []).append(x)
+            elif self.now() >= limit:
+                w.late = True
+                self.fail("late-nil", "client %d: BLPOP sent at %d ms with timeout %d ms has no answer at %d ms" % (ci, w.t_send, w.timeout, self.now()), step, (ci, w.seq))
         return self.settle_and_compare(step, expect, t, False)
 
     def do(self, action):
@@ -654,7 +672,7 @@ class HistoryRun:
         """final deadline scans (a nil must arrive, and on time), then hang up everything"""
         step = len(self.steps)
         n = 0
-        while (self.refresh_model()["deadlines"] or self.wait_deadlines()) and n < 3 and not self.disagree:
+        while (self.refresh_model()["deadlines"] or self.wait_deadlines()) and n < 5 and not self.disagree:
             self.tick(step, forced=True)
             n += 1
         for c in self.clients:
